@@ -35,6 +35,7 @@ def translate():
     hs = open(os.path.join(MUX, "h2.rs")).read()
     cs = open(os.path.join(MUX, "converter.rs")).read()
     ss = open(os.path.join(MUX, "stream.rs")).read()
+    ms = open(os.path.join(MUX, "mod.rs")).read()
     code = hs.split("\n#[cfg(test)]\nmod tests")[0]
     consts = {}
     for n in H2_CONSTS:
@@ -90,6 +91,18 @@ def translate():
          "handle_data_frame no longer arms WRITABLE on the linked endpoint when it queues body bytes for it"),
         (code, r"if open_window \{\s*self\.readiness\.arm_writable\(\);",
          "update_initial_window_size no longer arms WRITABLE when a SETTINGS change re-opens a stream window"),
+        (code, r"self\.flow_control\.received_bytes_since_update \+= wire_payload_len;\s*if self\.flow_control\.received_bytes_since_update >= conn_threshold \{\s*let increment = self\.flow_control\.received_bytes_since_update;\s*self\.queue_window_update\(0, increment\);\s*self\.flow_control\.received_bytes_since_update = 0;",
+         "handle_data_frame no longer credits the connection window with the whole wire payload (padding included) of every DATA frame"),
+        (code, r"if !data\.end_stream \{\s*self\.queue_window_update\(data\.stream_id, wire_payload_len\);",
+         "handle_data_frame no longer credits the stream window with the whole wire payload of a DATA frame"),
+        (code, r"if self\.wire_opened\.len\(\) >= limit \|\| lowest_unopened != Some\(stream_id\) \{\s*continue;",
+         "write_streams no longer holds back a backend stream that would exceed the peer's MAX_CONCURRENT_STREAMS"),
+        (code, r"parser::SETTINGS_MAX_CONCURRENT_STREAMS => \{ self\.peer_settings\.settings_max_concurrent_streams = v;",
+         "handle_settings_frame no longer stores the peer's MAX_CONCURRENT_STREAMS as announced"),
+        (code, r"self\.pending_rst_streams\.push\(\(id, H2Error::Cancel\)\);",
+         "end_stream on a backend connection no longer queues the RST_STREAM(CANCEL) of a cancelled request"),
+        (ms, r"let mut backend_ready = client\.readiness\(\)\.filter_interest\(\);\s*if dead \{\s*backend_ready\.remove\(Ready::HUP\);\s*backend_ready\.remove\(Ready::ERROR\);\s*\}\s*if !backend_ready\.is_empty\(\) \{\s*all_backends_readiness_are_empty = false;",
+         "Mux::ready counts the HUP/ERROR bits of a hung-up backend as pending work again (spins until MAX_LOOP_ITERATIONS closes the session)"),
         (cs, r"self\.window -= i32::try_from\(payload_len\)\.unwrap_or\(i32::MAX\);",
          "converter DATA arm no longer subtracts the payload from its window"),
     ]
@@ -234,7 +247,7 @@ LEVEL_NOTE = ("ConnectionH2's window handlers are reached only through the black
               "end-to-end liveness depends on edge-triggered wake-ups (runtime).")
 TECHNIQUE = "Rocq/Coq proof over an executable Gallina model + source translators + differential correspondence + black-box ledger peer"
 
-HARNESS_BINS = ["c14", "c14bb"]
+HARNESS_BINS = ["c14", "c14bb", "c14bb2"]
 
 
 def extra_stage(tier, rng, work):
@@ -265,6 +278,23 @@ def extra_stage(tier, rng, work):
                 res["viols"].append((c, p[1], p[2] if len(p) > 2 else ""))
         if not any(l.startswith("obs headers") for l in lines):
             res["failures"].append("c14bb %s %d %d: the backend saw no request (worker or mock did not start)" % (mode, w, body))
+    # part 2: receiver-side credit (padded DATA, exact client ledger of both windows) and the backend's
+    # MAX_CONCURRENT_STREAMS (cancelled request, limit lowered to 0 on an idle connection, burst of requests
+    # attached while the backend was still connecting); the scripted backend keeps the RFC 9113 5.1 stream states
+    runs2 = [["pad", "600", "10", "255"], ["cancel"], ["mcs0"], ["burst", "4"]]
+    if tier == "thorough":
+        runs2 += [["pad", "300", "1", "255"], ["pad", "200", "16000", "100"], ["burst", "8"]]
+    for a in runs2:
+        rc, o, e, dt = vlib.sh([vlib.harness_path("c14bb2")] + a, timeout=120, cwd=work)
+        if rc != 0 or "obs done" not in o:
+            res["failures"].append("c14bb2 %s: exit %d %s" % (" ".join(a), rc, (o + e)[-300:]))
+            continue
+        n += 1
+        c = Case("bb2_" + "_".join(a), [["blackbox2"] + [int(x) if x.isdigit() else x for x in a]], dict(kind="blackbox"))
+        for l in o.splitlines():
+            if l.startswith("viol "):
+                p = l.split(" ", 2)
+                res["viols"].append((c, p[1], p[2] if len(p) > 2 else ""))
     res["coverage"] = dict(blackbox_runs=n, blackbox_data_frames_accounted=data_frames,
-                           blackbox_rule="harness/src/bin/c14bb.rs: real worker, HTTP/1 keep-alive or raw H2/TLS client -> h2c backend announcing INITIAL_WINDOW_SIZE=w; backend ledger (grants only after silence): DATA received <= granted per stream and per connection, every DATA <= 16384; sequential uploads all answered")
+                           blackbox_rule="harness/src/bin/c14bb.rs: real worker, HTTP/1 keep-alive or raw H2/TLS client -> h2c backend announcing INITIAL_WINDOW_SIZE=w; backend ledger (grants only after silence): DATA received <= granted per stream and per connection, every DATA <= 16384; sequential uploads all answered; harness/src/bin/c14bb2.rs: padded upload with an exact client ledger of both windows must complete and never be over-credited; the backend's acknowledged MAX_CONCURRENT_STREAMS is never exceeded (cancel, limit lowered to 0, burst)")
     return res
